@@ -360,15 +360,42 @@ func (x *Exec) evalIdent(name string, c *evalCtx) (typed, error) {
 	if b, ok := c.env[name]; ok {
 		return tv(b.t, b.typ), nil
 	}
+	if name == "ranged" && c.fr != nil { // the slice the innermost enclosing range loop runs over
+		if a := x.rangeIndexHere(c.fr); a != nil {
+			// the body indexes the ranged slice with the hidden index: t = &s[rangeindex] / s[rangeindex]
+			for _, b := range c.fr.fn.Blocks {
+				for _, in := range b.Instrs {
+					var xs, idx ssa.Value
+					switch v := in.(type) {
+					case *ssa.IndexAddr:
+						xs, idx = v.X, v.Index
+					case *ssa.Index:
+						xs, idx = v.X, v.Index
+					}
+					if xs == nil {
+						continue
+					}
+					if u, ok := idx.(*ssa.UnOp); ok && u.X == ssa.Value(a) {
+						if _, isSl := xs.Type().Underlying().(*types.Slice); isSl {
+							for f := c.fr; f != nil; f = f.parent {
+								if t, ok := f.regs[xs]; ok {
+									return tv(t, xs.Type()), nil
+								}
+							}
+						}
+					}
+				}
+			}
+		}
+		return typed{}, fmt.Errorf("ranged: the clause is not evaluated inside a range loop over a slice")
+	}
 	if name == "iter" && c.fr != nil { // range loop iteration counter = rangeindex + 1 of the innermost range loop around here
 		if a := x.rangeIndexHere(c.fr); a != nil {
 			if v, ok := c.st.cells[a]; ok {
 				return tv(smt.Add(v, smt.IntLit(1)), types.Typ[types.Int]), nil
 			}
 		}
-		if a := x.localNamed("rangeindex", c); a != nil {
-			return tv(smt.Add(c.st.cells[a], smt.IntLit(1)), types.Typ[types.Int]), nil
-		}
+		return typed{}, fmt.Errorf("iter: the clause is not evaluated inside a range loop")
 	}
 	if a := x.localNamed(name, c); a != nil {
 		st := c.st // locals always have their current value, old() only rewinds heaps and parameters
